@@ -31,8 +31,10 @@ pub fn kinds() -> Vec<(&'static str, AP)> {
     let mut v = vec![];
     for ver in [Ver::V4, Ver::V5] {
         let n = |s: &str| -> &'static str { Box::leak(format!("v{} {}", ver.level(), s).into_boxed_str()) };
-        v.push((n("CONNECT"), ConnProf::basic(true).ap(ver)));
-        v.push((n("CONNACK"), AckProf::basic(false).ap(ver)));
+        // CONNECT / CONNACK carry every property that the connection acts upon, with values that differ
+        // from what the cells negotiated: a refused one must not apply any of them
+        v.push((n("CONNECT"), ConnProf { clean: true, ka: 3, sei: Some(50), rm: Some(3), tam: Some(3), mps: Some(100) }.ap(ver)));
+        v.push((n("CONNACK"), AckProf { rm: Some(3), tam: Some(3), mps: Some(100), ska: Some(4), sei: Some(0), ..AckProf::basic(false) }.ap(ver)));
         v.push((n("PUBLISH q0"), AP::Publish { ver, dup: false, qos: 0, retain: false, topic: b"a".to_vec(), pid: None, props: vec![], payload: b"p".to_vec() }));
         v.push((n("PUBLISH q1"), AP::Publish { ver, dup: false, qos: 1, retain: false, topic: b"a".to_vec(), pid: Some(0), props: vec![], payload: b"p".to_vec() }));
         v.push((n("PUBLISH q2"), AP::Publish { ver, dup: false, qos: 2, retain: false, topic: b"a".to_vec(), pid: Some(0), props: vec![], payload: b"p".to_vec() }));
